@@ -405,6 +405,23 @@ func (ft *fnTrans) applyContract(x ssa.Value, fc *FuncContract, callee *ssa.Func
 		}
 		vc.assume(implies(reach, t))
 	}
+	// package invariants of the callee's package hold again after a callee that is under a verified contract and whose
+	// frame contains a package variable (it re-establishes them at each of its returns)
+	if pkg != nil && !fc.Havocs && !fc.Trusted && !fc.Extern {
+		touches := false
+		for _, it := range items {
+			if strings.HasPrefix(it.comp, "G:") {
+				touches = true
+			}
+		}
+		if touches {
+			for _, inv := range vc.P.cs.PkgInvs[pkg.Path()] {
+				if t, err := post.Bool(inv.Expr); err == nil {
+					vc.assume(implies(reach, t))
+				}
+			}
+		}
+	}
 	ft.setResult(x, sig, results)
 }
 
@@ -828,7 +845,8 @@ func (ft *fnTrans) requireEmitAllowed(event, reach string) {
 
 // a caller of a heap-havocking callee must itself be declared havocs (its own callers then lose all heap knowledge)
 func (ft *fnTrans) frameCheckHavocs(reach string) {
-	if ft.fc.Havocs {
+	if ft.fc.Havocs || ft.fn.Synthetic == "package initializer" {
+		// (a package initialiser first runs the initialisers of its imports; nobody calls it)
 		return
 	}
 	ft.vc.oblige("frame", ft.siteName("frame.havocs"), reach, "false", "callee is declared `havocs`; the caller's contract must be too", 0)
